@@ -58,6 +58,10 @@ func CompileGlobs(globs []string) (*regexp.Regexp, error) {
 		}
 		pattern.WriteRune(')')
 	}
+	if len(globs) == 0 {
+		// No pattern, no match: without this the regexp would be ^(?s:)$, which matches the empty path.
+		pattern.WriteString(`[^\x00-\x{10FFFF}]`)
+	}
 	pattern.WriteString(")$")
 
 	return regexp.Compile(pattern.String())
